@@ -157,7 +157,7 @@ fn go_iter_owning(lmax: usize, prefix: usize, script: &[u16], ends: u8, wit: fn(
 
 // ------------------------------------------------------------------------------------------------
 // slice
-// @verif family=SEQ quick=C03,C04,C05,C10,C11,C17 thorough=C01,C02,C16 timeout=600
+// @verif family=SEQ quick=C03,C04,C05,C10,C11,C17 thorough=C01,C02,C16 timeout=1500
 // @bounds kind=&[u8]; len<=3 (symbolic contents); prefix<=3 next(); then next_chunk(n<=len+2) consuming j<=len(chunk) items; then one of next/next_id_and_value/try_get_len+has_more; end in {drop, into_seq_iter all, into_seq_iter partly}
 #[kani::proof]
 #[kani::unwind(7)]
@@ -165,7 +165,7 @@ fn slice_chunk() {
     go_slice(3, 3, S_CHUNK, E_ALL, wit_chunk);
 }
 
-// @verif family=SEQ quick=C03,C04,C05,C10,C11,C17 thorough=C01,C02 timeout=600
+// @verif family=SEQ quick=C03,C04,C05,C10,C11,C17 thorough=C01,C02 timeout=1500
 // @bounds kind=&[u8]; len<=3; prefix<=3 next(); then buffered_iter(n<=len+2) with 1 or 2 pulls, each consumed partly (j1,j2 symbolic); then one of next/next_id_and_value/try_get_len+has_more; end in {drop, into_seq_iter all/partly}
 #[kani::proof]
 #[kani::unwind(7)]
@@ -173,7 +173,7 @@ fn slice_buf() {
     go_slice(3, 3, S_BUF, E_ALL, wit_buf);
 }
 
-// @verif family=SEQ quick=C06,C10,C11 thorough=C05 timeout=600
+// @verif family=SEQ quick=C06,C10,C11 thorough=C05 timeout=1500
 // @bounds kind=&[u8]; len<=3; prefix<=3 next(); skip_to_end; any pull (single, chunk n<=len+2, buffered x2); one of single/len query; end in {drop, into_seq_iter all/partly}
 #[kani::proof]
 #[kani::unwind(7)]
@@ -181,7 +181,7 @@ fn slice_skip() {
     go_slice(3, 3, S_SKIP, E_ALL, wit_skip);
 }
 
-// @verif family=SEQ quick=C12 thorough=C01,C02 timeout=900
+// @verif family=SEQ quick=C12 thorough=C01,C02 timeout=1500
 // @bounds kind=&[u8]; len<=3; prefix<=3 next(); one of for_each(n)/enumerate_for_each(n)/fold(n), n in [1,len+2]; end drop
 #[kani::proof]
 #[kani::unwind(7)]
@@ -189,7 +189,7 @@ fn slice_loops() {
     go_slice(3, 3, S_LOOPS, E_DROP, wit_loops);
 }
 
-// @verif family=SEQ quick=C01,C02,C04 timeout=600
+// @verif family=SEQ quick=C01,C02,C04 timeout=1500
 // @bounds kind=&[u8]; len<=3; prefix<=3 next(); two of values().next()/ids_and_values().next()/len query; end in {drop, into_seq_iter all/partly}
 #[kani::proof]
 #[kani::unwind(7)]
@@ -199,7 +199,7 @@ fn slice_adapt() {
 
 // ------------------------------------------------------------------------------------------------
 // vec (consuming)
-// @verif family=SEQ quick=C03,C04,C08,C10,C17 thorough=C01,C02,C05,C11 timeout=900
+// @verif family=SEQ quick=C03,C04,C08,C10,C17 thorough=C01,C02,C05,C11 timeout=1500
 // @bounds kind=Vec<Tracked>; len<=3, capacity 4; prefix<=3 next(); next_chunk(n<=len+2) consuming j items (rest dropped by the chunk); one of single/len query; end in {drop, into_seq_iter all/partly}; drop ledger
 #[kani::proof]
 #[kani::unwind(7)]
@@ -207,7 +207,7 @@ fn vec_chunk() {
     go_vec(3, 3, S_CHUNK, E_ALL, wit_chunk);
 }
 
-// @verif family=SEQ quick=C03,C08,C10,C17 thorough=C01,C02,C04,C05,C11 timeout=900
+// @verif family=SEQ quick=C03,C08,C10,C17 thorough=C01,C02,C04,C05,C11 timeout=1500
 // @bounds kind=Vec<Tracked>; len<=3, capacity 4; prefix<=3 next(); buffered_iter(n<=len+2) 1-2 pulls partly consumed; one of single/len query; end in {drop, into_seq_iter all/partly}; drop ledger
 #[kani::proof]
 #[kani::unwind(7)]
@@ -215,7 +215,7 @@ fn vec_buf() {
     go_vec(3, 3, S_BUF, E_ALL, wit_buf);
 }
 
-// @verif family=SEQ quick=C06,C08 thorough=C10,C11 timeout=900
+// @verif family=SEQ quick=C06,C08 thorough=C10,C11 timeout=1500
 // @bounds kind=Vec<Tracked>; len<=3; prefix<=3 next(); skip_to_end; any pull; single/len query; end in {drop, into_seq_iter all/partly}; drop ledger
 #[kani::proof]
 #[kani::unwind(7)]
@@ -223,7 +223,7 @@ fn vec_skip() {
     go_vec(3, 3, S_SKIP, E_ALL, wit_skip);
 }
 
-// @verif family=SEQ quick=C12 thorough=C08 timeout=900
+// @verif family=SEQ quick=C12 thorough=C08 timeout=1500
 // @bounds kind=Vec<Tracked>; len<=3; prefix<=3 next(); one of for_each/enumerate_for_each/fold with n in [1,len+2]; end drop; drop ledger
 #[kani::proof]
 #[kani::unwind(7)]
@@ -233,7 +233,7 @@ fn vec_loops() {
 
 // ------------------------------------------------------------------------------------------------
 // array (consuming)
-// @verif family=SEQ quick=C03,C08,C10,C17 thorough=C01,C02,C04,C05,C11 timeout=900
+// @verif family=SEQ quick=C03,C08,C10,C17 thorough=C01,C02,C04,C05,C11 timeout=1500
 // @bounds kind=[Tracked;3]; prefix<=3 next(); next_chunk(n<=5) consuming j; one of single/len query; end in {drop, into_seq_iter all/partly}; drop ledger
 #[kani::proof]
 #[kani::unwind(7)]
@@ -241,7 +241,7 @@ fn array_chunk() {
     go_array3(3, S_CHUNK, E_ALL, wit_chunk);
 }
 
-// @verif family=SEQ quick=C08,C10 thorough=C03,C01,C02,C17 timeout=900
+// @verif family=SEQ quick=C08,C10 thorough=C03,C01,C02,C17 timeout=1500
 // @bounds kind=[Tracked;3]; prefix<=3 next(); buffered_iter(n<=5) 1-2 pulls partly consumed; one of single/len query; end in {drop, into_seq_iter all/partly}; drop ledger
 #[kani::proof]
 #[kani::unwind(7)]
@@ -249,7 +249,7 @@ fn array_buf() {
     go_array3(3, S_BUF, E_ALL, wit_buf);
 }
 
-// @verif family=SEQ quick=C06,C08 thorough=C10,C11 timeout=900
+// @verif family=SEQ quick=C06,C08 thorough=C10,C11 timeout=1500
 // @bounds kind=[Tracked;3]; prefix<=3 next(); skip_to_end; any pull; single/len query; end in {drop, into_seq_iter all/partly}; drop ledger
 #[kani::proof]
 #[kani::unwind(7)]
@@ -259,7 +259,7 @@ fn array_skip() {
 
 // ------------------------------------------------------------------------------------------------
 // range
-// @verif family=SEQ quick=C03,C04,C05,C10,C11,C17 thorough=C01,C02 timeout=600
+// @verif family=SEQ quick=C03,C04,C05,C10,C11,C17 thorough=C01,C02 timeout=1500
 // @bounds kind=Range<usize> start<=5, len<=3; prefix<=3 next(); next_chunk(n<=len+2) consuming j; one of single/len query; end in {drop, into_seq_iter all/partly}
 #[kani::proof]
 #[kani::unwind(7)]
@@ -267,7 +267,7 @@ fn range_chunk() {
     go_range(3, 3, S_CHUNK, E_ALL, wit_chunk);
 }
 
-// @verif family=SEQ quick=C03,C10 thorough=C01,C02,C04,C05,C11,C17 timeout=600
+// @verif family=SEQ quick=C03,C10 thorough=C01,C02,C04,C05,C11,C17 timeout=1500
 // @bounds kind=Range<usize> start<=5, len<=3; prefix<=3 next(); buffered_iter(n<=len+2) 1-2 pulls partly consumed; one of single/len query; end in {drop, into_seq_iter all/partly}
 #[kani::proof]
 #[kani::unwind(7)]
@@ -275,7 +275,7 @@ fn range_buf() {
     go_range(3, 3, S_BUF, E_ALL, wit_buf);
 }
 
-// @verif family=SEQ quick=C06 thorough=C10,C11 timeout=600
+// @verif family=SEQ quick=C06 thorough=C10,C11 timeout=1500
 // @bounds kind=Range<usize> start<=5, len<=3; prefix<=3 next(); skip_to_end; any pull; single/len query; end in {drop, into_seq_iter all/partly}
 #[kani::proof]
 #[kani::unwind(7)]
@@ -283,7 +283,7 @@ fn range_skip() {
     go_range(3, 3, S_SKIP, E_ALL, wit_skip);
 }
 
-// @verif family=SEQ thorough=C12 timeout=900
+// @verif family=SEQ thorough=C12 timeout=1500
 // @bounds kind=Range<usize> start<=5, len<=3; prefix<=3 next(); one of for_each/enumerate_for_each/fold with n in [1,len+2]; end drop
 #[kani::proof]
 #[kani::unwind(7)]
@@ -293,7 +293,7 @@ fn range_loops() {
 
 // ------------------------------------------------------------------------------------------------
 // wrapper over an arbitrary Iterator (ConIterOfIter<usize, Probe>), exact / inexact / unbounded hints
-// @verif family=SEQ quick=C03,C04,C05,C10,C11 thorough=C01,C02,C17,C09 timeout=900
+// @verif family=SEQ quick=C03,C04,C05,C10,C11 thorough=C01,C02,C17,C09 timeout=1500
 // @bounds kind=ConIterOfIter<usize,Probe> len<=3, size_hint in {exact,inexact,unbounded}; prefix<=3 next(); next_chunk(n<=len+2) consuming j; one of single/len query; end in {drop, into_seq_iter all/partly}
 #[kani::proof]
 #[kani::unwind(7)]
@@ -301,7 +301,7 @@ fn iter_chunk() {
     go_iter(3, 3, S_CHUNK, E_ALL, wit_chunk);
 }
 
-// @verif family=SEQ quick=C03,C04,C05,C10,C11 thorough=C01,C02,C17,C09 timeout=900
+// @verif family=SEQ quick=C03,C04,C05,C10,C11 thorough=C01,C02,C17,C09 timeout=1500
 // @bounds kind=ConIterOfIter<usize,Probe> len<=3, exact/inexact/unbounded/over-promising size hints; prefix<=3 next(); buffered_iter(2) 1-2 pulls partly consumed (stale buffer slots); one of single/len query; end in {drop, into_seq_iter all/partly}
 #[kani::proof]
 #[kani::unwind(7)]
@@ -309,7 +309,7 @@ fn iter_buf() {
     go_iter_n(3, 3, S_BUF, E_ALL, wit_buf, 2);
 }
 
-// @verif family=SEQ thorough=C03,C04,C05,C10,C11 timeout=1200 optcov=mid-way
+// @verif family=SEQ thorough=C03,C04,C05,C10,C11 timeout=1500 optcov=mid-way
 // @bounds kind=ConIterOfIter<usize,Probe> len<=3, exact/inexact/unbounded/over-promising size hints; prefix<=3 next(); buffered_iter(3) 1-2 pulls partly consumed; single/len query; end in {drop, into_seq_iter all/partly}
 #[kani::proof]
 #[kani::unwind(7)]
@@ -317,7 +317,7 @@ fn iter_buf3() {
     go_iter_n(3, 3, S_BUF, E_ALL, wit_buf, 3);
 }
 
-// @verif family=SEQ quick=C06 thorough=C10,C11,C09 timeout=900
+// @verif family=SEQ quick=C06 thorough=C10,C11,C09 timeout=1500
 // @bounds kind=ConIterOfIter<usize,Probe> len<=2, exact/inexact/unbounded/over-promising size hints; prefix<=2 next(); skip_to_end; 4 steps of single pulls / len queries / one chunk pull (enough pulls for the reserved counter to come back to the yielded count); end in {drop, into_seq_iter all/partly}
 #[kani::proof]
 #[kani::unwind(6)]
@@ -325,7 +325,7 @@ fn iter_skip() {
     go_iter(2, 2, S_SKIP_LONG, E_ALL, wit_skip);
 }
 
-// @verif family=SEQ quick=C06,C11 thorough=C10 timeout=900
+// @verif family=SEQ quick=C06,C11 thorough=C10 timeout=1500
 // @bounds kind=ConIterOfIter<usize,Probe> len<=3, exact/inexact/unbounded/over-promising size hints; prefix<=3 next(); skip_to_end; any pull (single, chunk n<=len+2, buffered x2); single/len query; end in {drop, into_seq_iter all/partly}
 #[kani::proof]
 #[kani::unwind(7)]
@@ -333,7 +333,7 @@ fn iter_skip_any() {
     go_iter_n(3, 3, S_SKIP, E_ALL, wit_skip, 2);
 }
 
-// @verif family=SEQ quick=C12 thorough=C01,C02 timeout=900
+// @verif family=SEQ quick=C12 thorough=C01,C02 timeout=1500
 // @bounds kind=ConIterOfIter<usize,Probe> len<=3, exact/inexact/unbounded/over-promising size hints; prefix<=3 next(); one of for_each/enumerate_for_each/fold with chunk size 1 (the buffered path of the loops on the wrapper ran out of memory in CBMC even for len<=2 and is outside this bound; buffered pulls on the wrapper are covered by iter_buf, the loops' buffered path by the slice/vec/range harnesses and ENV)
 #[kani::proof]
 #[kani::unwind(7)]
@@ -341,7 +341,7 @@ fn iter_loops() {
     go_iter_n(3, 3, S_LOOPS, E_DROP, wit_loops, 1);
 }
 
-// @verif family=SEQ quick=C08 thorough=C03,C10 timeout=900
+// @verif family=SEQ quick=C08 thorough=C03,C10 timeout=1500
 // @bounds kind=ConIterOfIter<Tracked,OwningProbe> len<=3; prefix<=3 next(); next_chunk(n<=len+2) consuming j; one of single/len query; end in {drop, into_seq_iter all/partly}; drop ledger (elements are created lazily by the probe)
 #[kani::proof]
 #[kani::unwind(7)]
@@ -349,7 +349,7 @@ fn iter_owning_chunk() {
     go_iter_owning(3, 3, S_CHUNK, E_ALL, wit_chunk, 0);
 }
 
-// @verif family=SEQ quick=C08 thorough=C03,C10 timeout=900
+// @verif family=SEQ quick=C08 thorough=C03,C10 timeout=1500
 // @bounds kind=ConIterOfIter<Tracked,OwningProbe> len<=3; prefix<=2 next(); buffered_iter(2) 1-2 pulls partly consumed (unconsumed elements stay in the buffer until overwritten or the buffer is dropped); one of single/len query; end in {drop, into_seq_iter all/partly}; drop ledger
 #[kani::proof]
 #[kani::unwind(6)]
@@ -371,7 +371,7 @@ fn kf_ledger(len: usize, k: usize) {
     }
 }
 
-// @verif family=SEQ quick=C08 timeout=300
+// @verif family=SEQ quick=C08 timeout=1500
 // @bounds kind=Vec<Tracked> len=3; k<=2 next(); skip_to_end; drop  (isolates known finding KF-C08-skip)
 #[kani::proof]
 #[kani::unwind(6)]
@@ -390,7 +390,7 @@ fn kf_vec_skip_undropped() {
     kf_ledger(3, k);
 }
 
-// @verif family=SEQ quick=C08 timeout=300
+// @verif family=SEQ quick=C08 timeout=1500
 // @bounds kind=[Tracked;3]; k<=2 next(); skip_to_end; drop  (isolates known finding KF-C08-skip)
 #[kani::proof]
 #[kani::unwind(6)]
@@ -457,7 +457,7 @@ fn spin_guard() {
     }
 }
 
-// @verif family=SEQ hook=1 quick=C09 thorough=C05 timeout=900 owner=C09
+// @verif family=SEQ hook=1 quick=C09 thorough=C05 timeout=1500 owner=C09
 // @bounds kind=ConIterOfIter<usize,Probe> len<=3, exact/inexact/unbounded/over-promising size hints; prefix<=3 next(); next_chunk(n<=len+2) consuming j; single/len query; end in {drop, into_seq_iter all/partly}; spin detection: >12 consecutive loads
 #[cfg(orx_concurrent_iter_verif)]
 #[kani::proof]
@@ -467,7 +467,7 @@ fn iterh_chunk() {
     go_iter(3, 3, S_CHUNK, E_ALL, wit_chunk);
 }
 
-// @verif family=SEQ hook=1 quick=C09 thorough=C05 timeout=900 owner=C09
+// @verif family=SEQ hook=1 quick=C09 thorough=C05 timeout=1500 owner=C09
 // @bounds kind=ConIterOfIter<usize,Probe> len<=3, exact/inexact/unbounded/over-promising size hints; prefix<=3 next(); buffered_iter(2) 1-2 pulls partly consumed; single/len query; end in {drop, into_seq_iter all/partly}; spin detection
 #[cfg(orx_concurrent_iter_verif)]
 #[kani::proof]
@@ -477,7 +477,7 @@ fn iterh_buf() {
     go_iter_n(3, 3, S_BUF, E_ALL, wit_buf, 2);
 }
 
-// @verif family=SEQ hook=1 quick=C09 thorough=C06 timeout=900 owner=C09
+// @verif family=SEQ hook=1 quick=C09 thorough=C06 timeout=1500 owner=C09
 // @bounds kind=ConIterOfIter<usize,Probe> len<=2, exact/inexact/unbounded/over-promising size hints; prefix<=2 next(); skip_to_end; 4 more steps of single pulls / len queries / one chunk pull; end in {drop, into_seq_iter all/partly}; spin detection
 #[cfg(orx_concurrent_iter_verif)]
 #[kani::proof]
